@@ -141,6 +141,8 @@ class MQTTProtocol(MQTTBaseProtocol):
         # Estimated bandwith in bytes/sec for PUBLISH PDUs
         self._bandwith     =  self.DEFAULT_BANDWITH
         self._factor       =  self.DEFAULT_FACTOR
+        # True while _purgeSession is failing requests
+        self._purging      = False
         # additional, per-connection subscriber state
         self.onPublish   = None
         # a callback  when CONNACK packet is received
@@ -549,6 +551,8 @@ class MQTTProtocol(MQTTBaseProtocol):
         '''
         if self.state is not self.CONNECTED and self.state is not self.CONNECTING:
             return  # an errback fired just before (e.g. by the purge at CONNACK) may have disconnected
+        if self._purging:
+            return  # a publish made from an errback of the purge: nothing is released until the purge is over
         cnx = self.addr
         queue = self.factory.queuePublishTx[cnx]
         # QoS 0 messages do not occupy the window; QoS 1 & 2 wait for a free slot
@@ -642,8 +646,21 @@ class MQTTProtocol(MQTTBaseProtocol):
         (only what previous connections left behind if inherited is True)
         '''
         #log.debug("{event}", event="Clean Persistent Session")
+        # The errbacks fired here may call back into the API. A publish() must not release
+        # held-back messages that are about to be failed (see _refillPublish), and a disconnect()
+        # purges again: entries may be gone by the time their turn comes.
+        purging, self._purging = self._purging, True
+        try:
+            self._doPurgeSession(reason, inherited)
+        finally:
+            self._purging = purging
+
+
+    def _doPurgeSession(self, reason, inherited):
         for k in list(self.factory.windowPublish[self.addr]):
-            request = self.factory.windowPublish[self.addr][k]
+            request = self.factory.windowPublish[self.addr].get(k)
+            if request is None:
+                continue
             if inherited and request.protocol is self:
                 continue
             del self.factory.windowPublish[self.addr][k]
@@ -653,7 +670,9 @@ class MQTTProtocol(MQTTBaseProtocol):
             request.deferred.errback(reason)
 
         for k in list(self.factory.windowPubRelease[self.addr]):
-            request = self.factory.windowPubRelease[self.addr][k]
+            request = self.factory.windowPubRelease[self.addr].get(k)
+            if request is None:
+                continue
             del self.factory.windowPubRelease[self.addr][k]
             if request.alarm is not None:
                 request.alarm.cancel()
@@ -663,6 +682,8 @@ class MQTTProtocol(MQTTBaseProtocol):
         # messages still waiting for a free window slot belong to the session too
         for request in list(self.factory.queuePublishTx[self.addr]):
             if inherited and request.protocol is self:
+                continue
+            if request not in self.factory.queuePublishTx[self.addr]:
                 continue
             self.factory.queuePublishTx[self.addr].remove(request)
             if request.msgId:   # QoS 0 deferreds have already fired
